@@ -15,8 +15,8 @@ ID = "C12"
 LEVEL = "exploration"
 DECIDING = ["C12.transition_matrix"]
 RULE = ("every trajectory over the alphabet {0,1,2,NaN} of length 0..Lmax (quick Lmax=5, thorough Lmax=7), every lag "
-        "tau in 1..L+1, both window modes, total_num_cells=4 (cell 3 never visited), plus seeded random long "
-        "trajectories (L<=2000, <=50 cells, NaN runs, tau given as int/float/str); a case is the triple "
+        "tau in 1..L+1, both window modes (half of the trajectories through ONE live MSM object asked repeatedly), total_num_cells=4 (cell 3 never visited), plus seeded random long "
+        "trajectories (L<=2000, up to 3e6 cells incl. the high end of the index range, NaN runs, tau given as int/float/str); a case is the triple "
         "(trajectory, tau, mode); non-trivial = at least one counted window and >=2 distinct visited cells; "
         "distinct by digest of the triple")
 ASSUMPTIONS = ["cell indices in the trajectory are < total_num_cells (larger ones are outside the property)",
@@ -57,6 +57,8 @@ def transition_matrix_is_symmetrised_count_model(self, tau, noncorrelated_window
     try:
         seq = np.asarray(self.assigned_trajectory, dtype=float)
         n = int(self.total_num_cells)
+        if n > 3000:
+            return _judge_large(self, seq, n, tau, noncorrelated_windows, result)
         T, rows, counted = model(seq, tau, bool(noncorrelated_windows), n)
         R = result.toarray() if hasattr(result, "toarray") else np.asarray(result)
         problems = []
@@ -88,6 +90,36 @@ def transition_matrix_is_symmetrised_count_model(self, tau, noncorrelated_window
     return True
 
 
+def _judge_large(self, seq, n, tau, noncorr, result):
+    """same oracle on the compressed set of visited cells (a dense n x n model is not affordable for n ~ 1e5)"""
+    mon = "C12.transition_matrix"
+    cells = sorted({int(x) for x in seq if x == x})
+    pos = {c: k for k, c in enumerate(cells)}
+    comp = np.array([pos[int(x)] if x == x else np.nan for x in seq], dtype=float)
+    T, rows, counted = model(comp, tau, bool(noncorr), max(1, len(cells)))
+    R = result.tocoo()
+    problems = []
+    if R.shape != (n, n):
+        problems.append(f"shape {R.shape} != {(n, n)}")
+    else:
+        outside = [(int(i), int(j), float(v)) for i, j, v in zip(R.row, R.col, R.data) if v != 0 and (i not in pos or j not in pos)]
+        if outside:
+            problems.append({"non-zero entries at never-visited cells": outside[:5]})
+        sub = np.zeros_like(T)
+        for i, j, v in zip(R.row, R.col, R.data):
+            if i in pos and j in pos:
+                sub[pos[int(i)], pos[int(j)]] += v
+        if len(cells) and not np.allclose(sub, T, rtol=1e-12, atol=1e-14):
+            a, b = np.unravel_index(np.argmax(np.abs(sub - T)), T.shape)
+            problems.append(f"entry ({cells[a]},{cells[b]}) = {sub[a, b]!r}, model {T[a, b]!r}")
+    if problems:
+        REC.fail(mon, {"problems": problems, "tau": repr(tau), "noncorr": bool(noncorr), "n": n, "L": len(seq), "visited": cells[:20]})
+    else:
+        REC.ok(mon)
+    transition_matrix_is_symmetrised_count_model.last = (counted, None)
+    return True
+
+
 def install():
     from molgri.molecules.transitions import MSM
     attach.ensure(MSM, "get_one_tau_transition_matrix", transition_matrix_is_symmetrised_count_model)
@@ -95,14 +127,15 @@ def install():
 
 
 # --------------------------------------------------------------------------------------- workload
-def drive(MSM, seq, tau, noncorr, n, check_reverse=False):
+def drive(MSM, seq, tau, noncorr, n, check_reverse=False, obj=None):
     case = {"trajectory": ["nan" if x != x else int(x) for x in seq],
             "tau": tau if isinstance(tau, (int, str)) else float(tau), "noncorr": noncorr, "n": n}
     REC.begin_case(case, cls=[f"L={min(len(seq), 8) if len(seq) <= 8 else '>8'}", f"noncorr={noncorr}",
                               f"tau_type={type(tau).__name__}"], sample=(len(seq) == 5 and tau == 2 and seq[0] == 1.0))
     arr = np.array(seq, dtype=float)
     try:
-        out = MSM(arr, total_num_cells=n).get_one_tau_transition_matrix(tau, noncorrelated_windows=noncorr)
+        # obj given: the same live MSM object is asked again (other mode / other tau) - results must not depend on earlier requests
+        out = (obj if obj is not None else MSM(arr, total_num_cells=n)).get_one_tau_transition_matrix(tau, noncorrelated_windows=noncorr)
     except Exception as e:
         REC.crashed("C12.call_raised", e)
         return
@@ -110,7 +143,7 @@ def drive(MSM, seq, tau, noncorr, n, check_reverse=False):
     visited = {int(x) for x in seq if x == x}
     if counted > 0 and len(visited) >= 2:
         REC.nontrivial_case()
-    if check_reverse and not noncorr:
+    if check_reverse and not noncorr and R is not None:
         try:
             out2 = MSM(arr[::-1].copy(), total_num_cells=n).get_one_tau_transition_matrix(tau, noncorrelated_windows=False)
             R2 = out2.toarray()
@@ -130,18 +163,23 @@ def run_exhaustive(MSM, spec):
             idx += 1
             if idx % nsh != sh:
                 continue
+            shared = MSM(np.array(seq, dtype=float), total_num_cells=N_CELLS_SMALL) if idx % 2 == 0 else None
             for tau in range(1, L + 2):
-                for noncorr in (False, True):
-                    drive(MSM, seq, tau, noncorr, N_CELLS_SMALL, check_reverse=(idx % 7 == 0))
+                for noncorr in ((False, True) if tau % 2 else (True, False)):
+                    drive(MSM, seq, tau, noncorr, N_CELLS_SMALL, check_reverse=(idx % 7 == 0), obj=shared)
 
 
 def run_random(MSM, spec):
     rng = random.Random(spec["rseed"])
     for it in range(spec["count"]):
-        n = rng.choice([1, 2, 3, 5, 8, 20, 50])
+        n = rng.choice([1, 2, 3, 5, 8, 20, 50, 50, 70000, 100000, 3 * 10 ** 6])  # real full grids reach 1e5..1e6 cells
         L = rng.choice([1, 2, 3, 10, 50, 200, 600, 2000])
+        if n > 3000:
+            L = min(L, 200)
         p_nan = rng.choice([0.0, 0.05, 0.3, 0.9])
-        visited_cells = rng.sample(range(n), rng.randint(1, n))
+        visited_cells = rng.sample(range(n), rng.randint(1, min(n, 50)))
+        if n > 3000 and rng.random() < 0.7:
+            visited_cells = [n - 1 - c % 5000 for c in visited_cells]  # the high end of the index range
         seq = []
         while len(seq) < L:
             if rng.random() < p_nan:
@@ -154,11 +192,14 @@ def run_random(MSM, spec):
         tau = max(1, tau)
         form = rng.choice(["int", "float", "str"])
         tau_arg = tau if form == "int" else float(tau) if form == "float" else str(tau)
-        for noncorr in (False, True):
-            drive(MSM, seq, tau_arg, noncorr, n, check_reverse=True)
+        shared = MSM(np.array(seq, dtype=float), total_num_cells=n) if it % 2 == 0 else None
+        for noncorr in ((False, True, False) if it % 4 < 2 else (True, False)):
+            drive(MSM, seq, tau_arg, noncorr, n, check_reverse=True, obj=shared)
         if it % 10 == 0:  # the all-tau front end
             taus = np.array(sorted({1, 2, max(1, tau)}))
             m = MSM(np.array(seq, dtype=float), total_num_cells=n)
+            if n > 3000:
+                continue
             try:
                 allm = m.get_all_tau_transition_matrices(taus, noncorrelated_windows=False)
                 ok = len(allm) == len(taus)
